@@ -62,6 +62,11 @@ GEN.g2=function(l,i){return fcc(i)+'1'+fcc(i);};
 GEN.g3=function(l,i){return '"\\'+fcc(i)+'"';};
 GEN.g4=function(l,i){return '"\\u'+(l?h4u(i):h4(i))+'"';};
 GEN.g5=function(l,i){return fcc(i);};
+function blk(i,f){var s='';for(var k=0;k<16;k++)s+=f(16*i+k);return s;}
+GEN.g1b=function(l,i){return '"'+blk(i,fcc)+'"';};
+GEN.g4b=function(l,i){return '"'+blk(i,function(c){return '\\u'+h4(c);})+'"';};
+GEN.g5b=function(l,i){return blk(i,fcc);};
+GEN.g4u=function(l,i){return '"\\u'+h4u(i<256?i:(i-256)<<8)+'"';};
 var U6=[0x41,0xD800,0xDBFF,0xDC00,0xDFFF,0x2028].map(function(c){return fcc(c);});
 GEN.g6=function(l,i){return mixed(U6,l,i);};
 // parse families: one 'A <i> <dump>' line per accepted text, 'X <i> <name>' per non-SyntaxError exception, 'N <count of SyntaxErrors>'
@@ -109,18 +114,24 @@ var REPS=[
   function(){return ["b","a",1,"a","__proto__",new String("\ud800"),{},null,true,1,new Number(2),"hid","x"];}
 ];
 var INDENTS=[undefined,0,2,11,"\t","abcdefghijkl",new Number(3),new String("ab"),2.9,-1,true,{},"",Infinity,NaN,null,10,"0123456789"];
-function runStringify(vals,base,plain,nind){
+function runStringify(vals,base,plain,inds){
   for(var j=0;j<vals.length;j++){
     var vi=base+j,f=vals[j][0],cleanup=vals[j][1];
     if(plain){try{emit('V '+vi+' '+D(f()));}catch(e){emit('V '+vi+' err '+en(e));}}
-    for(var ri=0;ri<REPS.length;ri++)for(var ii=0;ii<nind;ii++){
-      var out;L=[];
+    for(var ri=0;ri<REPS.length;ri++)for(var ix=0;ix<inds.length;ix++){
+      var out,ii=inds[ix];L=[];
       try{var r=jstr(f(),REPS[ri](),INDENTS[ii]);out=r===undefined?'U':(typeof r==='string'?qs(r):'?'+typeof r);}catch(e){out='err '+en(e);}
       if(cleanup)cleanup();
       emit('E '+vi+' '+ri+' '+ii+' '+out+' | '+L.join(';'));
     }
   }
 }
+"""
+
+
+DRIVER_DEPTH = r"""
+var ownKeys=Reflect.ownKeys, isArr=Array.isArray, jparse=JSON.parse, jstr=JSON.stringify, emit=__emit;
+function en(e){try{return (e instanceof Error)?String(e.name):'thrown:'+typeof e;}catch(x){return 'thrown:?';}}
 // nesting depth
 function runDepth(d){
   var t,v,x,n,s,i;
@@ -181,6 +192,14 @@ def gen_text(fam, l, i):
         return '"\\u' + (("%04X" if l else "%04x") % i) + '"'
     if fam == "g5":
         return chr(i)
+    if fam == "g1b":
+        return '"' + "".join(chr(16 * i + k) for k in range(16)) + '"'
+    if fam == "g4b":
+        return '"' + "".join("\\u%04x" % (16 * i + k) for k in range(16)) + '"'
+    if fam == "g5b":
+        return "".join(chr(16 * i + k) for k in range(16))
+    if fam == "g4u":
+        return '"\\u%04X"' % (i if i < 256 else (i - 256) << 8)
     if fam == "g6":
         cs = []
         for _ in range(l):
@@ -290,8 +309,9 @@ def _indents():
             Obj("Object"), "", inf, float("nan"), None, 10.0, "0123456789"]
 
 
-N_INDENTS_MAIN = 6  # the task's six; the rest are applied to the special inputs only
-N_INDENTS_ALL = 18
+INDS_MAIN = [0, 1, 2, 3, 4, 5]  # the task's six; the rest are applied to the special inputs only
+INDS_SUB = [0, 2, 5]  # none, 2, "abcdefghijkl": used for the largest value layer of the thorough tier
+INDS_ALL = list(range(18))
 N_REPS = 3
 
 
@@ -301,9 +321,9 @@ def _date_proto(I, result):
     return p
 
 
-def _fn_logging(I, tag, result_fn):
+def _fn_logging(I, tag, result_fn, with_key=True):
     def call(this, args):
-        I.log.append(tag + (":" + qs(args[0]) if args and isinstance(args[0], str) else ""))
+        I.log.append(tag + (":" + qs(args[0]) if with_key and args and isinstance(args[0], str) else ""))
         return result_fn(this, args)
     return mk_function(call)
 
@@ -380,7 +400,7 @@ def _sp_getters(I):
 
     def ga(recv):
         I.log.append("get a")
-        return mk_object([("toJSON", _fn_logging(I, "tj a", lambda t, a: 2.0))])
+        return mk_object([("toJSON", _fn_logging(I, "tj a", lambda t, a: 2.0, False))])
 
     def g1(recv):
         I.log.append("get 1")
@@ -493,13 +513,13 @@ def special_js_list(lo, hi):
     return "[" + ",".join(items) + "]"
 
 
-def exp_stringify_model(make, vi, plain, nind):
+def exp_stringify_model(make, vi, plain, inds):
     """expected lines of runStringify for one input; `make(I)` builds a fresh model value"""
     out = []
     if plain:
         out.append("V %d %s" % (vi, dump(make(J.Interp()))))
     for ri in range(N_REPS):
-        for ii in range(nind):
+        for ii in inds:
             I = J.Interp()
             try:
                 v = make(I)
@@ -564,12 +584,12 @@ def expected(desc):
     if k == "strval":
         out = []
         for j, (t, _js) in enumerate(desc["vals"]):
-            out += exp_stringify_model(lambda I, t=t: J.parse(t), desc["base"] + j, True, N_INDENTS_MAIN)
+            out += exp_stringify_model(lambda I, t=t: J.parse(t), desc["base"] + j, True, desc.get("inds", INDS_MAIN))
         return out
     if k == "strspecial":
         out = []
         for j in range(desc["lo"], desc["hi"]):
-            out += exp_stringify_model(SPECIALS[j][3], j, False, N_INDENTS_ALL)
+            out += exp_stringify_model(SPECIALS[j][3], j, False, INDS_ALL)
         return out
     if k == "depth":
         return ["PA ok", "SA ok", "PO ok", "SO ok"]
@@ -587,9 +607,9 @@ def source(desc, drv):
         return drv + "runQuote(GEN.%s,%d,%d,%d);" % (desc["fam"], desc["l"], desc["lo"], desc["hi"])
     if k == "strval":
         items = ",".join("[function(){return %s;},null]" % js for _t, js in desc["vals"])
-        return drv + "runStringify([%s],%d,true,%d);" % (items, desc["base"], N_INDENTS_MAIN)
+        return drv + "runStringify([%s],%d,true,%s);" % (items, desc["base"], json.dumps(desc.get("inds", INDS_MAIN)))
     if k == "strspecial":
-        return drv + "runStringify(%s,%d,false,%d);" % (special_js_list(desc["lo"], desc["hi"]), desc["lo"], N_INDENTS_ALL)
+        return drv + "runStringify(%s,%d,false,%s);" % (special_js_list(desc["lo"], desc["hi"]), desc["lo"], json.dumps(INDS_ALL))
     if k == "depth":
-        return drv + "runDepth(%d);" % desc["d"]
+        return (DRIVER_DEPTH if drv else "") + "runDepth(%d);" % desc["d"]
     raise KeyError(k)
